@@ -155,10 +155,16 @@ def _check_unitary(what, m, d, tol=1e-7):
 
 
 def _input_2q(r):
-    u, info = G.build_2q(r)
+    try:
+        u, info = G.build_2q(r)
+    except R.ReferenceUnavailable as e:
+        raise Reject(f"reference unavailable: {e}")
     assert R.unitarity_defect(u) < 1e-13, "generator produced a non-unitary input"
     if info["constructed"]:
-        w = R.weyl_from_matrix(u)
+        try:
+            w = R.weyl_from_matrix(u)
+        except R.ReferenceUnavailable:
+            return u, info  # the class is known by construction; only the cross-check of the two references is skipped
         assert R.weyl_distance(w, info["v"]) < 1e-7, ("reference canonicaliser and reference spectrum disagree", w, info["v"])
     return u, info
 
@@ -244,7 +250,10 @@ def oracle_kak(r):
         _check_unitary("extract_right_diag", dg, 4, 1e-9)
         if np.max(np.abs(dg - np.diag(np.diag(dg)))) > 0:
             raise Violation("extract_right_diag: result is not diagonal")
-        w = R.weyl_from_matrix(u @ dg)
+        try:
+            w = R.weyl_from_matrix(u @ dg)
+        except R.ReferenceUnavailable as e:
+            raise Reject(f"reference unavailable: {e}")
         if min(_admissible(R.shende_count, w, 1e-8)) > 2:
             raise Violation(f"extract_right_diag: U @ D has class {w}, whose Shende invariants still need three CNOTs")
     lab = _labels2q(info, count_decided=len(adm) == 1, atol=str(atol))
